@@ -269,7 +269,8 @@ class ProductSampler(PointSampler):
     def sample_points(self, params=Points.empty(), device="cpu"):
         b_points = self.sampler_b.sample_points(params, device=device)
         a_points = self.sampler_a.sample_points(b_points, device=device)
-        self.set_length(len(a_points))
+        # the length is the number of points for one row of the (external) parameters
+        self.set_length(len(a_points) // max(1, len(params)))
         return a_points
 
 
@@ -296,7 +297,8 @@ class ConcatSampler(PointSampler):
     def sample_points(self, params=Points.empty(), device="cpu"):
         samples_a = self.sampler_a.sample_points(params, device=device)
         samples_b = self.sampler_b.sample_points(params, device=device)
-        self.set_length(len(samples_a) + len(samples_b))
+        # the length is the number of points for one row of the parameters
+        self.set_length((len(samples_a) + len(samples_b)) // max(1, len(params)))
         return samples_a | samples_b
 
 
@@ -324,7 +326,8 @@ class AppendSampler(PointSampler):
     def sample_points(self, params=Points.empty(), device="cpu"):
         samples_a = self.sampler_a.sample_points(params, device=device)
         samples_b = self.sampler_b.sample_points(params, device=device)
-        self.set_length(len(samples_a))
+        # the length is the number of points for one row of the parameters
+        self.set_length(len(samples_a) // max(1, len(params)))
         return samples_a.join(samples_b)
 
 
